@@ -142,7 +142,9 @@ pub fn val_any(max_big: u32) -> BoxedStrategy<Blob> {
         1 => if small_only { Just(Blob::Lit(vec![0x33; 3])).boxed() } else { prop_oneof![
             (60_000u32..200_000, any::<u64>()).prop_map(|(n, seed)| Blob::Rand { n, seed }),
             (any::<u8>(), 60_000u32..200_000).prop_map(|(fill, n)| Blob::Pad { fill, n, tail: vec![7] }),
-            (any::<u8>(), 4_000_000u32..4_400_000).prop_map(|(fill, n)| Blob::Pad { fill, n, tail: vec![] }),
+            // ~4 MB values only in the thorough tier (callers pass max_big >= 20 000 there): a few hundred seeks over a
+            // 4 MB compressed block cost a minute
+            (any::<u8>(), if max_big >= 20_000 { 4_000_000u32..4_400_000 } else { 250_000u32..400_000 }).prop_map(|(fill, n)| Blob::Pad { fill, n, tail: vec![] }),
         ].boxed() },
     ]
     .boxed()
